@@ -20,6 +20,7 @@
  *   '.' deliver next round   'x' drop   'd' duplicate (two copies back to back)
  *   'D' duplicate, second copy three rounds late   '1'..'9' delay k extra rounds
  *   's' swap with the next datagram of the same direction that is due in the same round
+ *   'R' delayed two extra rounds (arrives out of order) and then delivered twice
  * datagrams beyond the string are delivered normally.
  *
  * Case specs (also accepted by --case):
@@ -48,10 +49,11 @@ typedef struct {
     struct { int step, ep, fired; } sp[8]; int nsp;
     mx_ep C, S; int sExists, sResumedComplete; sslSessionId_t *sid, *ownSid;
     dg_t net[MAXNET]; int nnet;
-    int sendIdx, step, round, roundsSinceInterf, quietT, totT, retxFlights, retxDg, dupDelivered, dropped;
+    int sendIdx, step, round, roundsSinceInterf, quietT, stall, totT, retxFlights, retxDg, dupDelivered, dropped;
     int complete[2];             /* handshake complete has been observed (must never revert) */
     unsigned char sent[2][MAXSER], lost[2][MAXSER], deliv[2][MAXSER];
-    int failed, verbose, forceClean;
+    int failed, verbose, forceClean, dropAll;
+    unsigned char lastdg[2048]; int lastn, lastdir;
     int capture; cap_t cap[256]; int ncap;
     int tComplete, rComplete;    /* timeout rounds / rounds until both complete */
     char clauses[16][48]; int nclauses;
@@ -116,6 +118,8 @@ static void net_push(int dir, const unsigned char *d, int n)
 {
     int idx = G.sendIdx++; char f = (!G.forceClean && idx < G.nf) ? G.fates[idx] : '.';
     capture_dg(dir, d, n);
+    if (n <= (int) sizeof G.lastdg) { memcpy(G.lastdg, d, n); G.lastn = n; G.lastdir = dir; }
+    if (G.dropAll) f = 'x';
     if (f != '.') G.roundsSinceInterf = 0, G.quietT = 0;
     TRACE("    dg#%d %s len=%d type=%d epoch=%d seq=%d fate=%c\n", idx, dir ? "S->C" : "C->S", n, d[0], (d[3] << 8) | d[4], (d[9] << 8) | d[10], f);
     switch (f) {
@@ -123,6 +127,7 @@ static void net_push(int dir, const unsigned char *d, int n)
     case 'd': net_add(d, n, dir, idx, G.round + 1, 0, 0, 0); net_add(d, n, dir, idx, G.round + 1, 1, 0, 0); break;
     case 'D': net_add(d, n, dir, idx, G.round + 1, 0, 0, 0); net_add(d, n, dir, idx, G.round + 4, 1, 0, 1); break;
     case 's': net_add(d, n, dir, idx, G.round + 1, 0, 1, 0); break;
+    case 'R': net_add(d, n, dir, idx, G.round + 3, 0, 0, 1); net_add(d, n, dir, idx, G.round + 3, 1, 0, 1); break;
     default:
         if (f >= '1' && f <= '9') net_add(d, n, dir, idx, G.round + 1 + (f - '0'), 0, 0, 1);
         else net_add(d, n, dir, idx, G.round + 1, 0, 0, 0);
@@ -255,7 +260,7 @@ static void app_send(mx_ep *e, int serial)
     int idx = G.sendIdx; char f = (!G.forceClean && idx < G.nf) ? G.fates[idx] : '.';
     G.sent[dir][serial] = 1;
     /* dropped, or delayed across rounds (a record of a superseded epoch may legitimately be discarded): no delivery obligation */
-    if (f == 'x' || (f >= '1' && f <= '9')) G.lost[dir][serial] = 1;
+    if (f == 'x' || f == 'R' || (f >= '1' && f <= '9')) G.lost[dir][serial] = 1;
     mx_actor = e->id;
     int rc = matrixSslEncodeToOutdata(e->ssl, p, PAYLEN);
     if (rc <= 0) { viol("app-send-failed-after-handshake", "%s: matrixSslEncodeToOutdata returned %d for a %d byte payload after the handshake completed", e->name, rc, PAYLEN); G.failed = 1; return; }
@@ -314,8 +319,16 @@ static int sim_handshake(void)
             }
             TRACE(" round %d: network empty -> timeout round (quiet %d)\n", G.round, G.quietT);
             vf_stat("timeout_rounds", 1);
+            int t0 = G.sendIdx;
             fire_timeout(&G.C, "timeout");
             if (G.sExists) fire_timeout(&G.S, "timeout");
+            /* nobody retransmits any more: the remaining schedule has nothing to act on */
+            if (G.sendIdx != t0) G.stall = 0;
+            else if (++G.stall > N_PROGRESS) {
+                viol("no-progress", "handshake not complete and neither side retransmits in %d consecutive timeout rounds (client hsState %d hsDone %d, server hsState %d hsDone %d)",
+                    G.stall - 1, G.C.ssl->hsState, G.C.hsDone, G.sExists ? G.S.ssl->hsState : -1, G.sExists ? G.S.hsDone : 0);
+                return 0;
+            }
         }
         if (!interference_pending() && G.roundsSinceInterf > LIVELOCK_ROUNDS) {
             viol("no-progress", "handshake not complete %d rounds after the schedule stopped interfering (retransmission livelock; client hsState %d, server hsState %d)", G.roundsSinceInterf, G.C.ssl->hsState, G.sExists ? G.S.ssl->hsState : -1);
@@ -518,6 +531,7 @@ static void gen_schedules(cfgstate_t *cs, int m, int nrandom, int spurious_depth
         f[i] = 'd'; add_case(cs, "single-duplicate", f, "");
         f[i] = 'D'; add_case(cs, "single-duplicate", f, "");
         f[i] = 's'; add_case(cs, "single-swap", f, "");
+        f[i] = 'R'; add_case(cs, "single-duplicate", f, "");
         for (int k = 1; k <= 3; k++) { if (g_delays == 1 && k != 2) continue; f[i] = '0' + k; add_case(cs, "single-delay", f, ""); }
     }
     /* random schedules over the first 28 datagrams */
@@ -525,7 +539,7 @@ static void gen_schedules(cfgstate_t *cs, int m, int nrandom, int spurious_depth
         int len = 6 + vf_below(g, 23), heavy = vf_below(g, 3);
         for (int i = 0; i < len; i++) {
             unsigned x = vf_below(g, 100); unsigned pd = heavy == 2 ? 35 : heavy == 1 ? 20 : 8;
-            f[i] = x < pd ? 'x' : x < pd + 10 ? 'd' : x < pd + 16 ? 'D' : x < pd + 26 ? (char) ('1' + vf_below(g, 4)) : x < pd + 34 ? 's' : '.';
+            f[i] = x < pd ? 'x' : x < pd + 10 ? 'd' : x < pd + 13 ? 'D' : x < pd + 16 ? 'R' : x < pd + 26 ? (char) ('1' + vf_below(g, 4)) : x < pd + 34 ? 's' : '.';
         }
         f[len] = 0; add_case(cs, "random", f, "");
     }
@@ -547,8 +561,9 @@ static void gen_schedules(cfgstate_t *cs, int m, int nrandom, int spurious_depth
 
 /* ================= replay phase ================= */
 typedef struct { int est, mode, rec, rec2, pos, K; } rcase_t;
-static const char *estname[] = { "bidir", "client-data-only", "retransmitted-final-flight" };
-static const char *modename[] = { "single-replay", "after-finished-replay", "double-replay", "pair-replay" };
+static const char *estname[] = { "bidir", "client-data-only", "retransmitted-final-flight", "reordered-data" };
+#define NEST 4
+static const char *modename[] = { "single-replay", "after-finished-replay", "double-replay", "pair-replay", "gap-replay" };
 
 static void inject(const cap_t *c, const char *what)
 {
@@ -587,7 +602,42 @@ static void replay_child(void *arg)
 }
 
 static long g_scenario;
-typedef struct { cfgstate_t *cs; int est, K, pairs; const char *onlyspec; long scn; } scn_arg;
+typedef struct { cfgstate_t *cs; int est, K, pairs; const char *onlyspec; long scn; int gaps; } scn_arg;
+/* Forward jump of g record sequence numbers (g application datagrams lost in a row), then replays around the jump:
+ * variant 0: replay the post-gap datagram at once; 1..3: after that many newer datagrams; 4: replay the pre-gap datagram and every
+ * application record captured earlier after the jump; 5: one of the "lost" datagrams arrives late (fresh, in or out of the window). */
+static void gap_child(void *arg)
+{
+    rcase_t *r = arg; int g = r->rec, variant = r->rec2 / 2, dir = r->rec2 & 1;
+    mx_ep *snd = dir ? &G.S : &G.C;
+    G.forceClean = 1; G.nclauses = 0; G.verbose = vf_verbose;
+    TRACE("CASE %s\n", G.spec);
+    cap_t P, Q, L; memset(&P, 0, sizeof P); memset(&Q, 0, sizeof Q); memset(&L, 0, sizeof L);
+    #define GRAB(c) do { (c).n = G.lastn; (c).d = malloc(G.lastn); memcpy((c).d, G.lastdg, G.lastn); (c).dir = G.lastdir; (c).type = 23; (c).epoch = (G.lastdg[3] << 8) | G.lastdg[4]; (c).seq = (G.lastdg[9] << 8) | G.lastdg[10]; } while (0)
+    app_send(snd, 400); GRAB(P); sim_settle(4);
+    G.dropAll = 1;
+    for (int i = 0; i < g && !G.failed; i++) { app_send(snd, 401 + i); if (i == g - 1) GRAB(L); G.lost[dir][401 + i] = 1; }
+    G.dropAll = 0;
+    app_send(snd, 450); GRAB(Q); sim_settle(4);
+    if (!G.failed && G.deliv[dir][450] != 1) viol("app-datagram-lost-without-drop", "the datagram after a gap of %d lost datagrams was delivered %d times", g, G.deliv[dir][450]);
+    if (variant >= 1 && variant <= 3) for (int i = 0; i < variant && !G.failed; i++) { app_send(snd, 460 + i); sim_settle(4); }
+    if (variant <= 3) inject(&Q, "post-gap datagram");
+    if (variant == 4) {
+        inject(&P, "pre-gap datagram");
+        for (int i = 0; i < G.ncap && !G.failed; i++) if (!G.cap[i].isdg && G.cap[i].type == 23 && G.cap[i].dir == dir) inject(&G.cap[i], "older application record");
+        inject(&Q, "post-gap datagram");
+    }
+    if (variant == 5) {
+        inject(&L, "late gap datagram"); G.lost[dir][400 + g] = 0;
+        inject(&L, "late gap datagram again"); inject(&Q, "post-gap datagram");
+        /* the late datagram is fresh: inside the window (distance 1) it must be accepted once */
+        if (!G.failed && G.deliv[dir][400 + g] != 1) viol("app-datagram-lost-without-drop", "a fresh datagram arriving one sequence number behind the newest one after a gap of %d was delivered %d times", g, G.deliv[dir][400 + g]);
+    }
+    sim_clean_exchange(600, "after a sequence-number gap and replays");
+    vf_stat("cases", 1); vf_stat("replays", 1); vf_statf(1, "replays_%s", modename[4]);
+    vf_distinct("G/%d/%04x/%d/%d/%d/%d/%d", G.cfg.ver, G.cfg.suite, G.cfg.pmtu, G.cfg.kind, g, variant, dir);
+}
+
 static void replay_scenario(void *argp)
 {
     scn_arg *a = argp; cfgstate_t *cs = a->cs; int est = a->est, K = a->K, pairs = a->pairs; const char *onlyspec = a->onlyspec;
@@ -603,7 +653,13 @@ static void replay_scenario(void *argp)
     G.capture = 1;
     if (!sim_handshake()) { if (!G.nclauses) vf_incon("replay establishment failed %s %04x %s est %d", mx_vername[c->ver], c->suite, kindname[c->kind], est); return; }
     G.forceClean = 1;
-    for (int j = 0; j < 3 && !G.failed; j++) { app_send(&G.C, j); sim_settle(6); if (est != 1) { app_send(&G.S, j); sim_settle(6); } }
+    if (est == 3) {
+        /* four datagrams per direction, delivered in the order 0,2,1,3: records 1 are accepted through the out-of-order branch of the window */
+        for (int side = 0; side < 2 && !G.failed; side++) { mx_ep *e = side ? &G.S : &G.C;
+            app_send(e, 0); sim_settle(6); app_send(e, 1); if (G.nnet) G.net[G.nnet - 1].swap = 1; app_send(e, 2); sim_settle(6); app_send(e, 3); sim_settle(6); }
+        if (!G.failed && (G.deliv[0][1] != 1 || G.deliv[1][1] != 1 || G.deliv[0][2] != 1)) viol("app-datagram-lost-without-drop", "reordered application datagrams were not all delivered once (c->s %d %d, s->c %d %d)", G.deliv[0][1], G.deliv[0][2], G.deliv[1][1], G.deliv[1][2]);
+    }
+    else for (int j = 0; j < 3 && !G.failed; j++) { app_send(&G.C, j); sim_settle(6); if (est != 1) { app_send(&G.S, j); sim_settle(6); } }
     if (est == 1) { app_send(&G.C, 3); sim_settle(6); }
     G.capture = 0;
     if (G.failed || G.nclauses) { if (!G.nclauses) vf_incon("replay establishment data exchange failed %s %04x %s est %d", mx_vername[c->ver], c->suite, kindname[c->kind], est); return; }
@@ -625,16 +681,30 @@ static void replay_scenario(void *argp)
             vf_fork_case(replay_child, &rc, "c16-replay", G.spec, 60);
         }
     }
+    if (est == 0 && a->gaps) for (int g = 1; g <= 40; g++) {
+        if (a->gaps == 1 && !(g <= 2 || g == 8 || g == 16 || g >= 28)) continue;
+        for (int v = 0; v < 12; v++) {
+            long no = g_rcase++;
+            rcase_t rc = { est, 4, g, v, 0, K };
+            snprintf(G.spec, sizeof G.spec, "R/%s/%04x/%d/%s/%s/%s/%d/%d/%d", mx_vername[c->ver], c->suite, c->pmtu, kindname[c->kind], estname[est], modename[4], g, v, 0);
+            if (onlyspec) { if (strcmp(onlyspec, G.spec)) continue; }
+            else if (!vf_mine(no)) continue;
+            snprintf(G.keytail, sizeof G.keytail, "%s:%s:%s:%s", mx_vername[c->ver], famname(c->suite), kindname[c->kind], modename[4]);
+            if (g == 33 && v == 0) vf_sample("replay %s: %d application datagrams lost in a row, then the datagram after the gap replayed immediately", G.spec, g);
+            vf_fork_case(gap_child, &rc, "c16-replay", G.spec, 60);
+        }
+    }
     sim_free();
     for (int i = 0; i < G.ncap; i++) free(G.cap[i].d);
     G.ncap = 0;
 }
+static int g_gaps;   /* 0 none, 1 quick subset of gap sizes, 2 all gap sizes 1..40 */
 /* the establishment itself runs in a child, so that a library crash there costs one scenario, not the shard */
 static void run_replays(cfgstate_t *cs, int est, int K, int pairs, const char *onlyspec)
 {
     cfg_prepare(cs); if (!cs->usable) return;
     cfg_activate(cs);
-    scn_arg a = { cs, est, K, pairs, onlyspec, g_scenario++ };
+    scn_arg a = { cs, est, K, pairs, onlyspec, g_scenario++, g_gaps };
     char spec[300]; cfg_t *c = &cs->c;
     snprintf(spec, sizeof spec, "S/%s/%04x/%d/%s/replay-establishment-%s/%s/", mx_vername[c->ver], c->suite, c->pmtu, kindname[c->kind], estname[est], est == 2 ? "(last handshake datagram dropped once)" : "");
     vf_fork_case(replay_scenario, &a, "c16-replay-establishment", spec, 3000);
@@ -667,8 +737,9 @@ static int run_case_spec(const char *spec)
         add_case(cs, tok[5], nt > 6 ? tok[6] : "", nt > 7 ? tok[7] : "");
         batch_flush();
     } else {
-        int est = 0; for (int i = 0; i < 3; i++) if (!strcmp(tok[5], estname[i])) est = i;
+        int est = 0; for (int i = 0; i < NEST; i++) if (!strcmp(tok[5], estname[i])) est = i;
         char full[700]; snprintf(full, sizeof full, "%s", spec);
+        g_gaps = 2;
         run_replays(cs, est, vf_thorough ? 6 : 3, 1, full);
     }
     return 0;
@@ -723,9 +794,11 @@ int main(int argc, char **argv)
             if (!(isPsk || (cs->c.suite == 0x009c && cs->c.pmtu != 600) || (cs->c.suite == 0x002f && cs->c.ver == MX_DTLS10 && cs->c.pmtu == 1500) || (cs->c.suite == 0xc02f && cs->c.pmtu == 1500 && cs->c.kind == K_FULL))) continue;
             if (cs->c.suite == 0x00ae) continue;
         } else if (ecdhe && cs->c.pmtu == 600) continue;
-        for (int est = 0; est < 3; est++) {
-            if (!T && !isPsk && est == 2 && cs->c.kind != K_FULL) continue;
+        for (int est = 0; est < NEST; est++) {
+            if (!T && !isPsk && est >= 2 && cs->c.kind != K_FULL) continue;
             mx_entropy_seed(vf_seed * 131 + i * 3 + est);
+            /* sequence-number gap family: every suite class at least once in quick (full handshakes), everywhere in thorough */
+            g_gaps = T ? 2 : (cs->c.kind == K_FULL && cs->c.pmtu == 1500 ? 1 : 0);
             run_replays(cs, est, K, T && (isPsk || cs->c.pmtu == 1500), NULL);
         }
     }
